@@ -31,6 +31,10 @@ CLAIMS = {
   text="One contract per construction route, each proved on the real code for all inputs: newMessageField/NewID/NewType (error <=> the value has a CR or LF; error => unset), ID/Type (precondition single-line, otherwise must panics), UnmarshalText, UnmarshalJSON (json.Unmarshal yields any string), Scan (nil, string, []byte, other driver types), Message.UnmarshalText (ID/Type/chunk values come from FieldParser.Next, whose contract gives CR/LF-free values; loop invariant over all fields), Upgrade (Last-Event-Id header absent/empty/invalid => unset, else set to it). 'Set => single line' is the postcondition of every route; the single-line predicate is the spec function over bytes proved equal to isSingleLine via NewlineIndex's loop invariant.",
   note=COMMON + "json.Unmarshal and database/sql driver values are modelled as arbitrary strings / dynamic types; EventID/EventType values can only be built in-package (unexported fields), which is what makes the per-route argument complete; MarshalText/MarshalJSON/Value only read.",
   ref="DESIGN.md section 6, C14"),
+ "C16": dict(
+  text="The response writer, the provider and OnSession are abstract callees recorded in one ghost call trace; any call may fail. Proved on the real code for every call sequence by per-call contracts over the Session state (didUpgrade): doUpgrade sets Content-Type text/event-stream on the header map returned by Header() and flushes exactly once, reports the flush error and marks the session upgraded only on success; Send upgrades first (a failed upgrade writes nothing and returns the flush error), then makes exactly the Write calls of Message.WriteTo (C02 trace), returns the first failing write's error and never writes after it; Flush flushes exactly once (the upgrade's flush counts as that flush). getResponseWriter follows the Unwrap chain to the first writer with FlushError or Flush (FlushError preferred), nil iff the chain ends without one; Upgrade derives LastEventID from the header (C14). ServeHTTP: at most one Subscribe, with the header's Last-Event-ID and OnSession's topics (DefaultTopic slice when none/empty), nothing after a rejecting OnSession, a final http.Error 500 on w exactly when the writer cannot flush or Subscribe returns an error.",
+  note=COMMON + "http.Error is recorded as one trace event (what net/http writes for it is not modelled); slog calls and Logger()/Context()/Error() are not recorded in the trace; sync.Once in Server.init is an assumed contract (provider chosen once); headerContentTypeValue and defaultTopicSlice are assumed to hold their initial values. 'The body is the concatenation of the encodings over a sequence of Sends' is the per-call statement applied call by call (the trace is append-only).",
+  ref="DESIGN.md section 6, C16"),
  "C18": dict(
   text="Structural retention bound: FiniteReplayer never changes len(buf) (N slots) and Put's frame shows nothing else is stored; for ValidReplayer every slot outside the live window holds the zero value after every operation (enqueue below capacity, dequeue zeroes the vacated slot, resize copies only the live window into a fresh buffer) and after a collection no live slot holds an event with expiry <= the clock reading - so an evicted or collected message is referenced by no slot.",
   note=COMMON + "That Go's garbage collector frees what is unreferenced, and that no reference to a replaced backing array survives, is outside the contracts (value-sequence model of slices).",
